@@ -3,6 +3,7 @@ package readline
 import (
 	"strings"
 
+	"github.com/reeflective/readline/internal/core"
 	"github.com/reeflective/readline/inputrc"
 
 	"github.com/reeflective/readline/internal/history"
@@ -60,14 +61,39 @@ func ZZ_C09_Nav() {
 	exact := true  // position model applies (only pure walks so far)
 	prevBuf := T   // buffer and cursor before the command that has just run
 	prevCur := tl
+	// prev (optional): an earlier Readline call on the same shell — "zq" typed and accepted
+	// (it becomes the newest entry), "zq" typed and interrupted, or the newest entry recalled
+	// and accepted. Positions and remembered lines of that call must not leak into this one.
+	prevCall := zzverif.Param("prev")
+	// the history source is bound before Readline is called, as applications do
+	for _, e := range entries {
+		src.Write(e)
+	}
+	rl.History.Add("zz", src)
+	if prevCall != "" {
+		ends := map[string][][]byte{
+			"accept":  {[]byte("z"), []byte("q"), []byte("\r")},
+			"abort":   {[]byte("z"), []byte("q"), []byte("\x03")},
+			"recall":  {[]byte("z"), []byte("\x10"), []byte("\r")},
+			"walkend": {[]byte("z"), []byte("\x10"), []byte("\x10"), []byte("\x0e"), []byte("\x03")},
+		}
+		first := &zzverif.Script{Chunks: ends[prevCall]}
+		core.Stdin = first
+		rl.Readline()
+		zzverif.Reach("first-call-returned")
+		core.Stdin = script
+		entries = nil
+		for i := 0; i < src.Len(); i++ {
+			e, _ := src.GetLine(i)
+			entries = append(entries, e)
+		}
+		nh = len(entries)
+	}
 	wait := 0
 	script.OnWait = func() {
 		if wait == 0 {
 			wait++
-			for _, e := range entries {
-				src.Write(e)
-			}
-			rl.History.Add("zz", src)
+
 			// the in-progress text arrives as the user's typing does: one self-insert per
 			// character — which asks for the undo-history save to be skipped, as the real
 			// command does (emacs.go selfInsert: History.SkipSave) — followed by the save call
